@@ -566,14 +566,23 @@ type Edge struct {
 	K int
 }
 
-// EdgesImplying lists the branch edges that imply the guard.
+// EdgesImplying lists the branch edges on which the guard becomes established:
+// edges whose own condition implies it, and edges after which it holds given the
+// conditions and flag assignments on every path leading there (`f := a && !b; if f`).
 func (g *Graph) EdgesImplying(guard Guard) []Edge {
 	var out []Edge
+	seen := map[Edge]bool{}
 	for _, b := range g.Blocks {
 		for k := range b.Succs {
 			if g.EdgeImplies(b, k, guard) {
 				out = append(out, Edge{b, k})
+				seen[Edge{b, k}] = true
 			}
+		}
+	}
+	for _, e := range g.establishingEdges(guard) {
+		if !seen[e] {
+			out = append(out, e)
 		}
 	}
 	return out
